@@ -184,7 +184,7 @@ CHECKS = {
         level_text=("The product (3 version profiles x 23 Conn operations incl. the consumer-group operations x each error field of the response x 8 error codes x 23 following operations) is enumerated "
                     "(thorough: completely; quick: a 1/23 slice in which codes and following operations rotate under every (profile, operation, field)). The fake broker answers the first operation with the code in that field; "
                     "the following operation on the same Conn must return what it returns on a freshly dialled Conn to an identical cluster. Transport-level faults (cut at byte k, dropped response, garbage size prefix, wrong correlation id) "
-                    "must make the first operation fail, every later operation fail and nothing more be written. (that a request is still written before the later operation fails is recorded, not judged). Also: an error code (with and without an empty API list) on the implicit ApiVersions exchange of every negotiating operation, enumerated completely; a response that never comes while the connection stays open; goroutines reading single messages (batches closed before the end of the fetch response) while others run request/response operations on the same Conn."),
+                    "must make the first operation fail, every later operation fail and nothing more be written. (that a request is still written before the later operation fails is recorded, not judged). Also: an error code (with and without an empty API list) on the implicit ApiVersions exchange of every negotiating operation, enumerated completely; a response that never comes while the connection stays open; goroutines reading single messages (batches closed before the end of the fetch response) while others run request/response operations on the same Conn; logs mixing plain and compressed batches (every codec, message formats 1 and 2, truncated tails under small MaxBytes) opened at any offset and closed after any number of messages, followed by any operation."),
         level_note="the group operations are reached through exported wrappers compiled under the verif tag; state equality of the two clusters relies on the fake applying nothing when it answers with an injected code",
         rule=("case = (profile, operation, error field, code | transport fault, following operation); non-trivial = the fault reached the client as an error of the first operation; distinct by the tuple."),
         assumptions=["error codes are injected only into fields the API's response has at the negotiated version", "one broker plays leader, controller and coordinator"],
@@ -194,6 +194,7 @@ CHECKS = {
             dict(run="TestApiVersionsErrors", checks=None, timeout=1200),
             dict(run="TestConcurrentEarlyClose", checks_quick=60, checks_thorough=1200, shards_quick=2, shards_thorough=4, timeout=1800),
             dict(run="TestTransportFaults", checks_quick=150, shards_quick=3, checks_thorough=1500, shards_thorough=8),
+            dict(run="TestPartialReads", checks_quick=300, shards_quick=2, checks_thorough=4000, shards_thorough=8, timeout=1800),
         ],
     ),
     "C12": dict(
